@@ -1,6 +1,7 @@
 (* request handlers of the pre-write model driver (C08)
 
-   trace <store_locked 0|1> <detach_prewrite 0|1> <nprogs> <prog>... <sched>
+   trace <store_locked 0|1> <detach_prewrite 0|1> <flusher_swap 0|1> <flag_in_writeaof 0|1> <nprogs> <prog>... <sched>
+     (in a batch a trailing "~", before the optional "!", says its commands are written by Lua scripts)
      prog  = F                      background flusher
            | C<batch>/<batch>/...   connection; batch = comma separated command ids, "_" = no write
                                     command, a trailing "!" = the batch ends by going live
@@ -15,8 +16,10 @@ let split c s = if s = "" then [] else String.split_on_char c s
 let parse_batch (s : string) : batch =
   let detach = String.length s > 0 && s.[String.length s - 1] = '!' in
   let s = if detach then String.sub s 0 (String.length s - 1) else s in
+  let script = String.length s > 0 && s.[String.length s - 1] = '~' in
+  let s = if script then String.sub s 0 (String.length s - 1) else s in
   let cmds = if s = "_" || s = "" then [] else List.map (fun x -> n_of_int (int_of_string x)) (split ',' s) in
-  { b_cmds = cmds; b_detach = detach }
+  { b_cmds = cmds; b_detach = detach; b_script = script }
 
 let parse_prog (s : string) : prog =
   if s = "F" then PFlusher
@@ -24,7 +27,7 @@ let parse_prog (s : string) : prog =
 
 let pc_str = function
   | CMD -> "CMD" | L2 -> "L2" | L3 -> "L3" | L4 -> "L4" | P1 -> "P1" | P2 -> "P2" | P3 -> "P3"
-  | P4 -> "P4" | P4U -> "P4U" | P5 -> "P5" | P6 -> "P6" | DONE -> "DONE" | F1 -> "F1" | F2 -> "F2" | F3 -> "F3"
+  | P4 -> "P4" | P4U -> "P4U" | P5 -> "P5" | P6 -> "P6" | DONE -> "DONE" | F1 -> "F1" | FL -> "FL" | F2 -> "F2" | F3 -> "F3"
 
 let lst l = match l with [] -> "-" | _ -> String.concat "," (List.map (fun x -> string_of_int (int_of_n x)) l)
 
@@ -36,9 +39,9 @@ let show (n : int) (st : state) : string =
 
 let handle (toks : string list) : string =
   match toks with
-  | "trace" :: sl :: dp :: n :: rest ->
+  | "trace" :: sl :: dp :: fs :: fw :: n :: rest ->
       let n = int_of_string n in
-      let v = { v_store_locked = (sl = "1"); v_detach_prewrite = (dp = "1") } in
+      let v = { v_store_locked = (sl = "1"); v_detach_prewrite = (dp = "1"); v_flusher_swap = (fs = "1"); v_flag_in_writeaof = (fw = "1") } in
       let progs = List.filteri (fun i _ -> i < n) rest in
       let sched = match List.filteri (fun i _ -> i >= n) rest with
         | [s] when s <> "-" -> List.map (fun x -> nat_of_int (int_of_string x)) (split ',' s)
